@@ -813,53 +813,6 @@ theorem trace_sound_v2 {evs : Array Ev} {items : List V2.VItem} (h : V2.vtraceOk
     obtain ⟨ls, hls⟩ := V2.vreplay_path items _ t hr
     exact ⟨t, ls, rfl, hls, v2_stop_leaves_nothing ls t.c hls⟩
 
-/-! ### tie theorems: the model's decisions ARE the decision expressions regenerated from the source (`Gen.Src`) -/
-
-/-- `recoverer.Start`: `if m.running.Load() { return ErrServiceAlreadyStarted }` -/
-theorem recovererStart_matches_source (c : Core) :
-    stepCore c .sInit =
-      if c.spc = .init then (if Gen.Src.c18StartRefused c.running then some { c with spc := .done } else some { c with spc := .spawn })
-      else none := by
-  cases h : c.running <;> simp [stepCore, Gen.Src.c18StartRefused, h]
-
-/-- `recoverer.Close`: `if !m.running.Load() { return ErrServiceNotRunning }` — the test every Close-race theorem
-    ((a), (b), the cool-down) hinges on -/
-theorem recovererClose_matches_source (c : Core) :
-    stepCore c .cLoad =
-      if c.cpc = .load then
-        (if Gen.Src.c18CloseRefused c.running then some { c with cpc := .ret, cres := .notRunning } else some { c with cpc := .svcClose })
-      else none := by
-  cases h : c.running <;> simp [stepCore, Gen.Src.c18CloseRefused, h]
-
-/-- `recoverer.serviceStart`, `case err := <-m.stopped`: `err != nil`, then `errors.Is(err, errServiceStopped)` (cool-down and
-    restart) and `errors.Is(err, errServiceContextCancelled)` (clear the flag and return) -/
-theorem serviceStartRecv_matches_source (m : Msg) :
-    afterRecv m =
-      if Gen.Src.c18RecvIsError m.errCode 0 then
-        (if Gen.Src.c18RecvRestarts (decide (m = .stopped)) then .cool
-         else if Gen.Src.c18RecvStops (decide (m = .cancelled)) then .clear else .sel)
-      else .sel := by
-  cases m <;> simp [afterRecv, Msg.errCode, Gen.Src.c18RecvIsError, Gen.Src.c18RecvRestarts, Gen.Src.c18RecvStops]
-
-/-- the services with their own `running` flag use the recoverer's guard: metadata store, runner (v3) and the v2 report
-    coordinator (`if !running { start }` / `if running { stop }`, i.e. the same test with the branches swapped) -/
-theorem ownFlagGuards_match_source (running : Bool) :
-    flagStartRefuses running = Gen.Src.c18StartRefused running ∧
-    flagCloseRefuses running = Gen.Src.c18CloseRefused running ∧
-    flagStartRefuses running = Gen.Src.c18MetaStartRefused running ∧
-    flagCloseRefuses running = Gen.Src.c18MetaCloseRefused running ∧
-    flagStartRefuses running = Gen.Src.c18RunnerStartRefused running ∧
-    flagCloseRefuses running = Gen.Src.c18RunnerCloseRefused running ∧
-    flagStartRefuses running = !Gen.Src.c18V2StartProceeds running ∧
-    flagCloseRefuses running = !Gen.Src.c18V2CloseProceeds running := by
-  cases running <;> simp [flagStartRefuses, flagCloseRefuses, Gen.Src.c18StartRefused, Gen.Src.c18CloseRefused,
-    Gen.Src.c18MetaStartRefused, Gen.Src.c18MetaCloseRefused, Gen.Src.c18RunnerStartRefused, Gen.Src.c18RunnerCloseRefused,
-    Gen.Src.c18V2StartProceeds, Gen.Src.c18V2CloseProceeds]
-
-/-- `timeTicker.Start`: `if t.getterFn == nil { continue }` -/
-theorem tickerSkip_matches_source (getter nilFn : Nat) :
-    tickSkipped getter nilFn = Gen.Src.c18TickNoGetter getter nilFn := rfl
-
 /-- the cool-down the model's `coolElapsed` stands for is the regenerated constant -/
 theorem cooldown_is_ten_seconds : Gen.panicRestartWaitNs = 10 * 1000000000 := by decide
 
